@@ -165,6 +165,8 @@ Definition fd_spec (k : dkind) (order5 edge : bool) (s : F) (n i : nat) (x : vec
       else if edge then (if i =? 0 then st_fwd s x i else st_bwd s x i) else 0
   end.
 
+End Deriv.
+
 (* ================= proofs ================= *)
 Ltac unf := unfold Slice.sl, Slice.smp, Slice.iset, Slice.iadd, Slice.iset_at, Slice.iadd_at; cbn zeta;
   rewrite ?vdivc_vscale.
@@ -175,28 +177,28 @@ Ltac push n := repeat (match goal with
  | |- context [Dot.dotu _ _ (Vec.vneg _ _)] => rewrite dotu_vneg_r
  | |- context [Dot.dotu _ (Vec.zeros _ _) _] => rewrite dotu_zeros_l
  | |- context [Dot.dotu _ _ (Vec.zeros _ _)] => rewrite dotu_zeros_r
- | |- context [Dot.dotu _ (Vec.vadd _ ?u ?v) ?w] => first [ rewrite (dotu_vadd_l' F n u v w) by lf | rewrite (dotu_vadd_l F u v w) by len ]
- | |- context [Dot.dotu _ ?w (Vec.vadd _ ?u ?v)] => first [ rewrite (dotu_vadd_r' F n w u v) by lf | rewrite (dotu_vadd_r F w u v) by len ]
- | |- context [Dot.dotu _ (Vec.vsub _ ?u ?v) ?w] => rewrite (dotu_vsub_l F u v w) by len
- | |- context [Dot.dotu _ ?w (Vec.vsub _ ?u ?v)] => rewrite (dotu_vsub_r F w u v) by len
- | |- context [Dot.dotu _ (Slice.embed _ _ ?a ?v) ?w] => rewrite (dotu_embed_l F n a v w) by lf
- | |- context [Dot.dotu _ ?w (Slice.embed _ _ ?a ?v)] => rewrite (dotu_embed_r F n a v w) by lf
+ | |- context [Dot.dotu _ (Vec.vadd _ ?u ?v) ?w] => first [ rewrite (dotu_vadd_l' _ n u v w) by lf | rewrite (dotu_vadd_l _ u v w) by len ]
+ | |- context [Dot.dotu _ ?w (Vec.vadd _ ?u ?v)] => first [ rewrite (dotu_vadd_r' _ n w u v) by lf | rewrite (dotu_vadd_r _ w u v) by len ]
+ | |- context [Dot.dotu _ (Vec.vsub _ ?u ?v) ?w] => rewrite (dotu_vsub_l _ u v w) by len
+ | |- context [Dot.dotu _ ?w (Vec.vsub _ ?u ?v)] => rewrite (dotu_vsub_r _ w u v) by len
+ | |- context [Dot.dotu _ (Slice.embed _ _ ?a ?v) ?w] => rewrite (dotu_embed_l _ n a v w) by lf
+ | |- context [Dot.dotu _ ?w (Slice.embed _ _ ?a ?v)] => rewrite (dotu_embed_r _ n a v w) by lf
  end).
 Ltac unify_slices := repeat match goal with
  | |- context [Slice.slice _ ?a ?b ?x] => match goal with |- context [Slice.slice _ ?a2 ?b2 x] =>
      tryif (constr_eq a a2; constr_eq b b2) then fail
-     else (replace (Slice.slice F a b x) with (Slice.slice F a2 b2 x) by (f_equal; lia)) end end.
-Ltac nths n := repeat (first [ rewrite (nth_vadd' F n) by lf | rewrite nth_vadd by len | rewrite nth_vsub by len
+     else (replace (Slice.slice _ a b x) with (Slice.slice _ a2 b2 x) by (f_equal; lia)) end end.
+Ltac nths n := repeat (first [ rewrite (nth_vadd' _ n) by lf | rewrite nth_vadd by len | rewrite nth_vsub by len
   | rewrite nth_put by lf | rewrite nth_embed | rewrite nth_zeros | rewrite nth_vscale | rewrite nth_vneg | rewrite nth_slice ]).
 Ltac decide_ifs := repeat (match goal with |- context [if ?b then _ else _] =>
     first [ replace b with false by (symmetry; len) | replace b with true by (symmetry; len) ] end; cbv iota).
 Ltac zero_range n := let i := fresh "i" in let H1 := fresh in let H2 := fresh in
   intros i H1 H2; revert H1 H2; lens; cbn [rstart rstop rsamp]; intros H1 H2;
-  repeat (first [ rewrite (nth_vadd' F n) by lf | rewrite nth_put by lf | rewrite nth_embed | rewrite nth_zeros ]);
+  repeat (first [ rewrite (nth_vadd' _ n) by lf | rewrite nth_put by lf | rewrite nth_embed | rewrite nth_zeros ]);
   decide_ifs;
   repeat match goal with |- context [nth ?k ?v _] => rewrite (@nth_overflow _ v k) by len end;
   try ring.
-Ltac put2add n := rewrite (put_as_add' F n); [ | lf | lf | zero_range n ].
+Ltac put2add n := rewrite (put_as_add' _ n); [ | lf | lf | zero_range n ].
 Ltac adj_finish n := push n; lens; unify_slices; ring.
 (* name the common length n, with n = S (S ... m)) exposed so that all index arithmetic computes *)
 Ltac setn x y H n Hx Hy := cbn [rstart rstop rsamp]; rewrite <- ?H; remember (length x) as n eqn:Hx; symmetry in Hx;
@@ -205,18 +207,25 @@ Ltac setn x y H n Hx Hy := cbn [rstart rstop rsamp]; rewrite <- ?H; remember (le
 (* sizes below the stencil width: the vectors are explicit *)
 Ltac small x y H := destruct x as [|xa0 [|xa1 [|xa2 [|xa3 xt]]]]; cbn [length] in *; try discriminate; try lia;
   destruct y as [|ya0 [|ya1 [|ya2 [|ya3 yt]]]]; cbn [length] in *; try discriminate; try lia; cbn; try ring.
+
+Section DerivAdj.
+Variable F : FieldS.
+Add Ring RrD2 : (rth F).
+Notation vec := (list F).
+Notation dotu := (dotu F).
+Local Open Scope R_scope.
 Lemma fd_forward_adjoint s x y : length x = length y ->
-  dotu (fd_mv_forward s x) y = dotu x (fd_rmv_forward s y).
+  dotu (fd_mv_forward F s x) y = dotu x (fd_rmv_forward F s y).
 Proof. intros H. unfold fd_mv_forward, fd_rmv_forward. unf. setn x y H n Hx Hy.
   destruct n as [|m]; [small x y H|]. cbn [Nat.min Nat.sub Nat.add].
   rewrite put_zeros by len. adj_finish (S m). Qed.
 Lemma fd_backward_adjoint s x y : length x = length y ->
-  dotu (fd_mv_backward s x) y = dotu x (fd_rmv_backward s y).
+  dotu (fd_mv_backward F s x) y = dotu x (fd_rmv_backward F s y).
 Proof. intros H. unfold fd_mv_backward, fd_rmv_backward. unf. setn x y H n Hx Hy.
   destruct n as [|m]; [small x y H|]. cbn [Nat.min Nat.sub Nat.add].
   rewrite put_zeros by len. adj_finish (S m). Qed.
 Lemma fd_c3_adjoint (edge : bool) s x y : length x = length y -> ((if edge then 2 else 0) <= length x)%nat ->
-  dotu (fd_mv_c3 edge s x) y = dotu x (fd_rmv_c3 edge s y).
+  dotu (fd_mv_c3 F edge s x) y = dotu x (fd_rmv_c3 F edge s y).
 Proof. intros H Hn. unfold fd_mv_c3, fd_rmv_c3. unf. setn x y H n Hx Hy.
   destruct n as [|[|m]]; [destruct edge; [lia|small x y H] .. |]. cbn [Nat.min Nat.sub Nat.add].
   rewrite put_zeros by len. destruct edge.
@@ -224,11 +233,11 @@ Proof. intros H Hn. unfold fd_mv_c3, fd_rmv_c3. unf. setn x y H n Hx Hy.
   - adj_finish (S (S m)).
 Qed.
 Lemma fd_c5_adjoint (edge : bool) s x y : length x = length y -> ((if edge then 4 else 0) <= length x)%nat ->
-  dotu (fd_mv_c5 edge s x) y = dotu x (fd_rmv_c5 edge s y).
+  dotu (fd_mv_c5 F edge s x) y = dotu x (fd_rmv_c5 F edge s y).
 Proof. intros H Hn. unfold fd_mv_c5, fd_rmv_c5. unf. setn x y H n Hx Hy.
   destruct n as [|[|[|[|m]]]]; [destruct edge; [lia|small x y H] .. |]. cbn [Nat.min Nat.sub Nat.add].
   rewrite put_zeros by len. destruct edge.
   - do 4 put2add (S (S (S (S m)))). adj_finish (S (S (S (S m)))).
   - adj_finish (S (S (S (S m)))).
 Qed.
-End Deriv.
+End DerivAdj.
